@@ -1,5 +1,13 @@
 # Registered checks: property id -> harness files, entries, bounds.  See DESIGN.md section 3.
 SPECS = {
+ "C05": {
+  "explanation": "Real util::taggedData / featureData / getOffsetAndCount / positionToIndex / Dimension::indexOf / index kernels / DataView on arrays stored in the HDF5 model; array rank, extents and dimension kinds by fork, tag positions/extents and range ticks symbolic doubles; oracle: per specified dimension the set of indices whose coordinate lies in the region (inclusive/exclusive), point rule for absent/zero extent, whole axis for unspecified dimensions; returned view compared element by element.",
+  "bounds": {"quick": {"rank": "1..2", "extent_per_axis": "1..2", "dimension_kinds": ["set with labels", "set without labels", "sampled (1,0) (0.5,0) (1,-1)", "range with symbolic ticks"], "position_entries": "1..rank+1", "positions/extents": "symbolic doubles, |v| < 1e15, non-NaN"},
+             "thorough": {"rank": "1..2", "extent_per_axis": "1..3"}},
+  "outside": ["sampling intervals/offsets other than the three binary-exact pairs (kernel: C07)", "rank 3", "extents > 3", "units other than none (C18)", "data-frame dimensions in this harness"],
+  "assumptions": ["libhdf5 replaced by h5model"],
+  "harnesses": [{"file": "C05_tag.cpp", "defines": {"quick": ["-DVH_MAXRANK=2", "-DVH_MAXEXT=2"], "thorough": ["-DVH_MAXRANK=2", "-DVH_MAXEXT=3"]},
+     "entries": [{"entry": "vh_c05_tagged", "label": "vh_c05_tagged.r%d" % r, "fix": {"rank": r}} for r in range(2)] + [{"entry": "vh_c05_feature", "label": "vh_c05_feature.r%d" % r, "fix": {"rank": r}} for r in range(2)]}]},
  "C01": {
   "explanation": "Full stack on the HDF5 model for 10 numeric element types plus Bool and String: bounded histories of hyperslab writes (offset/count inside, touching and crossing the edge), appends along each axis, extent changes (grow/shrink) and sub-region reads with symbolic element values, compared with a dense reference array after every step and after reopen; reads as other numeric types; calibration polynomial/origin in the exact regime (integer-valued doubles) with raw reads unaffected; kernel checks of applyPolynomial (arbitrary doubles, order-independent facts) and guessChunking.",
   "bounds": {"quick": {"history_steps": 2, "rank": "1..2", "extent": "<= 3 per axis (4 after append)", "values": "symbolic, full range of the type", "polynomial": "degree <= 2, |coef| < 1024, |x|,|origin| < 256"},
